@@ -74,6 +74,28 @@ Example C02_loop_discriminates :
   kchk (targets bad) (mkVer 0 0 0) [] bad [] [] = None.
 Proof. split; [eexists; reflexivity|reflexivity]. Qed.
 
+(* a truncating transfer (NiAVObject::flags as 16 bit in old streams): the field is read before it is assigned,
+   accepted as one unit because the assigned value is a fixed point of the truncation; the same shape with a
+   cast that is NOT the width of the transfer is rejected. Concretely: flags = 0x12345 is written as 0x2345,
+   the object then holds 0x2345, and the second write emits the same two bytes and changes nothing. *)
+Example C02_truncating_transfer :
+  let prog := SSeq (SLocal 2 (PInt false 2) (ECast 2 false (ELoad 1 [])))
+                   (SSeq (SSyncLocal 2 (PInt false 2)) (SAssign 1 [] (PInt false 4) (ELocal 2))) in
+  let bad := SSeq (SLocal 2 (PInt false 2) (ECast 4 false (ELoad 1 [])))
+                  (SSeq (SSyncLocal 2 (PInt false 1)) (SAssign 1 [] (PInt false 4) (ELocal 2))) in
+  let o := set_int (empty_state []) (enc_key 1 []) 74565%Z in
+  (exists r, kchk (targets prog) (mkVer 0 0 0) [] prog [] [] = Some r) /\
+  kchk (targets bad) (mkVer 0 0 0) [] bad [] [] = None /\
+  exists o1 o2, exec Wr (mkVer 0 0 0) (fun _ => false) prog o = Ok o1 /\
+                exec Wr (mkVer 0 0 0) (fun _ => false) prog (syncir_clear_out o1) = Ok o2 /\
+                output o2 = output o1 /\ output o1 = [69; 35] /\
+                get_int o1 (enc_key 1 []) = 9029%Z /\ get_int o2 (enc_key 1 []) = 9029%Z.
+Proof.
+  cbv zeta. split; [eexists; vm_compute; reflexivity|]. split; [vm_compute; reflexivity|].
+  eexists. eexists. split; [vm_compute; reflexivity|]. split; [vm_compute; reflexivity|].
+  repeat split; vm_compute; reflexivity.
+Qed.
+
 (* a concrete second write: the clamp of an over-long NiString is applied once, the second write repeats it *)
 Example C02_second_write_repeats :
   let prog := SNiString 7 [] 1 in
